@@ -16,6 +16,7 @@ Does not decide: that sourcing the text in a real shell has no other effect."""
 import re
 from core import *
 from dataflow import *
+from cfgq import fn_refs
 
 LEVEL = 'other'
 EXPLANATION = __doc__
@@ -378,6 +379,11 @@ def t7(ctx, cfg, fs):
                 c = body.call_at(x)
                 if c and c.is_(r'complete_run::dump_'):
                     dumped = c.name.split('::')[-1]
+                    break
+                # or the stub printer is selected as a function value and called after the match
+                refs = [fn for (bb_, fn, _) in fn_refs(body) if bb_ == x and re.search(r'complete_run::dump_', fn)]
+                if refs:
+                    dumped = refs[0].split('::')[-1]
                     break
                 st += [s_ for s_ in body.succ(x)]
         ctx.ob('T7.stubs', 'check_next:%s' % lit, dumped == 'dump_%s_completer' % sh,
